@@ -59,6 +59,24 @@ var generators = map[string]genFn{}
 
 func register(name string, fn genFn) { generators[name] = fn }
 
+// newLogDir is where the repository's logging (glog) writes while the harness runs it. glog's flush daemon fsyncs its files
+// every few seconds WHILE HOLDING the logging lock, and the driver logs every command: on a disk busy with other jobs an fsync
+// of many seconds stalls the command loop (an `isready` answered late - seen once, see DESIGN section 7). A memory file system
+// makes the fsync free; the fallback is the directory given (or the system's temporary directory).
+func newLogDir(fallback string) string {
+	if st, err := os.Stat("/dev/shm"); err == nil && st.IsDir() {
+		if d, err := os.MkdirTemp("/dev/shm", "mlh-glog"); err == nil {
+			return d
+		}
+	}
+	if fallback == "" {
+		d, _ := os.MkdirTemp("", "mlh-glog")
+		return d
+	}
+	_ = os.MkdirAll(fallback, 0o755)
+	return fallback
+}
+
 func main() {
 	seed := flag.Int64("seed", 1, "PRNG seed")
 	tier := flag.String("tier", "quick", "quick|thorough")
@@ -67,7 +85,7 @@ func main() {
 	evalop := flag.String("evalop", "", "evaluate one op line in this process and print the result (child mode)")
 	flag.Parse()
 	if *evalop != "" {
-		glogDir, _ := os.MkdirTemp("", "mlh-glog")
+		glogDir := newLogDir("")
 		_ = flag.Set("log_dir", glogDir)
 		_ = flag.Set("stderrthreshold", "FATAL")
 		res := evalOpHere(*evalop)
@@ -89,8 +107,7 @@ func main() {
 		panic(err)
 	}
 	// the repository logs through glog: keep it out of /tmp and off stderr
-	glogDir := filepath.Join(*outDir, "glog")
-	_ = os.MkdirAll(glogDir, 0o755)
+	glogDir := newLogDir(filepath.Join(*outDir, "glog"))
 	_ = flag.Set("log_dir", glogDir)
 	_ = flag.Set("stderrthreshold", "FATAL")
 	defer os.RemoveAll(glogDir)
